@@ -114,11 +114,44 @@ def classify_apply_exception(case, exc):
         # loud refusal: an alignment requirement that whole nops cannot
         # establish (the ISA's nop is longer than the gap)
         return "refused", "refused:padding-not-a-multiple-of-the-nop"
+    if name == "LayoutError" and zero_sized_block_at_interval_edge(case):
+        # (F54) gtirb_layout cannot place an interval that starts (ends) with
+        # a zero-sized block next to a block it is linked with by a
+        # fallthrough edge
+        return "raised", (f"apply-raises:{name}@{where}"
+                          ":zero-sized-block-at-interval-edge")
     if name == "AssertionError" and \
             where == "edit.py:_cleanup_modified_blocks":
         return "raised", f"apply-raises:{name}@{where}" + cleanup_context(
             case)
     return "raised", f"apply-raises:{name}@{where}"
+
+
+def zero_sized_block_at_interval_edge(case):
+    """does the rewrite leave a zero-sized input block first or last in a
+    byte interval (every block in front of / behind it wholly deleted)?"""
+    gone = set()
+    for e in case["edits"]:
+        if e["op"] == "delfn":
+            gone |= set(next(f["blocks"] for f in case["funcs"]
+                             if f["name"] == e["f"]))
+    size = {}
+    for s in case["secs"]:
+        for iv in s["ivs"]:
+            for b in iv["blocks"]:
+                size[b["id"]] = len(b["items"])
+    for e in case["edits"]:
+        if e["op"] == "del" and e["i"] == 0 and e["n"] >= size[e["b"]] > 0:
+            gone.add(e["b"])
+    for s in case["secs"]:
+        for iv in s["ivs"]:
+            bs = iv["blocks"]
+            for k, b in enumerate(bs):
+                if b["code"] and not b["items"]:
+                    if all(x["id"] in gone for x in bs[:k]) or \
+                            all(x["id"] in gone for x in bs[k + 1:]):
+                        return True
+    return False
 
 
 def cleanup_context(case):
@@ -286,6 +319,10 @@ def check_symbols(run, lst, ob):
                 found = nb
                 continue
             if nb in lst.deleted_blocks:
+                continue
+            if not lst.block_info[nb]["blk"]["items"]:
+                # a zero-sized input block in the chain goes away with the
+                # deleted block behind it
                 continue
             return found
 
@@ -737,6 +774,16 @@ def check_cfg(run, lst, ob):
                 return "missing-site:return-site-block-proxy-deleted"
             corig = "?" if c is None else (
                 "patchcall" if c.patch is not None else "origcall")
+            if tok.patch is not None:
+                # (F25) the missing site is the start of the returning patch
+                # itself: the patch stands directly behind the call
+                si_, k_, seq_ = seq_index[id(tok)]
+                j = k_
+                while j > 0 and seq_[j - 1].patch == tok.patch:
+                    j -= 1
+                if seq_[j].pos == tgt[2] and si_ == tgt[1]:
+                    return (f"missing-site:{origin}-ret:{corig}:"
+                            "site-is-the-start-of-the-returning-patch")
             return f"missing-site:{origin}-ret:{corig}"
         if what == "missing":
             if any(x[2] == "return" and x[:2] == e[:2] for x in extra):
@@ -758,6 +805,26 @@ def check_cfg(run, lst, ob):
                 if ctgt[0] in ("proxydel", "extern"):
                     return "stale-site:callee-now-proxy"
                 return "stale-site:callee-changed"
+            if tok.patch is not None:
+                # (F25) is the patch placed directly behind a call to the
+                # function it is in?
+                si_, k_, seq_ = seq_index[id(tok)]
+                j = k_
+                while j > 0 and seq_[j - 1].patch == tok.patch:
+                    j -= 1
+                prev = seq_[j - 1] if j > 0 else None
+                if prev is not None and prev.t == "I" and \
+                        prev.kind == "call" and tok.fn is not None and \
+                        input_fn_of_label.get(prev.target) == tok.fn:
+                    f25_sites.add((tok.fn, tgt))
+                    return (f"extra-site:{origin}-ret:no-call-there:"
+                            "patch-behind-call-to-its-own-function")
+                if (tok.fn, tgt) in f25_sites:
+                    # a later returning patch copies the function's return
+                    # edges, the stale one included
+                    return (f"extra-site:{origin}-ret:no-call-there:"
+                            "copied-from-patch-behind-call-to-its-own-"
+                            "function")
             return f"extra-site:{origin}-ret:no-call-there"
         if tok.fn is not None and any(
                 b in lst.proxy_deleted
@@ -773,6 +840,11 @@ def check_cfg(run, lst, ob):
             continue
         viol.append({"key": k, "msg": f"missing edge {e}"})
     missing_ft_src = {(m[0], m[1]) for m in missing if m[2] == "ft"}
+    f25_sites = set()
+    for e in sorted(extra, key=repr):
+        # (first pass: the sites F25 leaves behind, see return_context)
+        if e[2] == "return":
+            describe(e, "extra")
     for e in sorted(extra, key=repr):
         if e[2] == "ft" and (e[0], e[1]) in missing_ft_src and \
                 e[5][0] in ("anon", "proxydel"):
